@@ -285,7 +285,7 @@ def run_crosshair(prop, job):
     # one CrossHair process checks both `main` (the obligation) and `twin`
     # (reachability witness: must be violated)
     cmd = [PY, '-m', 'crosshair', 'check', '--report_all',
-           '--unblock', 'open:' + stats,
+           '--unblock', 'open:' + stats, 'socket.getaddrinfo',
            '--per_condition_timeout', str(T),
            '--per_path_timeout', str(max(10, T // 4)),
            path]
